@@ -36,14 +36,15 @@ def make_delegate(sim, io: int, answers: dict, log: list, shared: dict, who: str
             log.append((who, 'get_number'))
             await self._wait()
             # wait until the other side has displayed it (a user reads it from the other device)
-            for _ in range(2000):
+            for _ in range(100):
                 if 'displayed' in shared:
                     break
                 await asyncio.sleep(0.01)
             mode = answers.get('passkey', 'right')
             if mode == 'none':
                 return None
-            n = shared.get('displayed', 0)
+            # nobody displays (both sides type a passkey they agreed on): a fixed number, 000000 when the case says so
+            n = shared.get('displayed', answers.get('agreed_passkey', 345678))
             if mode == 'wrong':
                 n = (n + 1) % 1000000
             return n
@@ -60,6 +61,7 @@ def install(sim, device, who, io, sc, mitm, bonding, answers, log, shared, init_
     from bumble.pairing import PairingConfig
 
     delegate = make_delegate(sim, io, answers, log, shared, who, init_dist, resp_dist)
-    cfg = PairingConfig(sc=sc, mitm=mitm, bonding=bonding, delegate=delegate)
+    # identity address = the static random address the devices connect with (so bonded keys are found again by address)
+    cfg = PairingConfig(sc=sc, mitm=mitm, bonding=bonding, delegate=delegate, identity_address_type=PairingConfig.AddressType.RANDOM)
     device.pairing_config_factory = lambda connection: cfg
     return cfg
